@@ -16,7 +16,8 @@ import (
 // ---------------------------------------------------------------------------------------------
 // C19: runs the cases enumerated by MC_ParentSelect.tla through the real ancestor.ChooseParents
 // (patterns S+T).  Each case is run `runs` times (the options are offered to the strategies in Go's
-// map order, and the free strategies pick the first, the last or a random offer); the distinct
+// map order, the free strategies pick the first, the last or a random offer, and the metric ranks
+// are embedded into uint64 in a different way in every run); the distinct
 // results are written as trace lines and judged by TLC against ParentSelect!Valid.
 
 type psCase struct {
@@ -51,6 +52,18 @@ func (s *freeStrategy) Choose(_ hash.Events, options hash.Events) int {
 	return s.r.Intn(len(options))
 }
 
+// strictly increasing embeddings of the ranks 0,1,2 into the metric type (uint64): small integers,
+// values around 2^31 / 2^32, values 2^63 or more apart, the ends of the range
+var psEmbeddings = [][]uint64{
+	{0, 1, 2},
+	{0, 1<<31 - 1, 1<<32 + 5},
+	{1, 1<<63 + 1, 1<<64 - 1},
+	{0, 10, 10 + 1<<63},
+	{5, 1 << 63, 1<<64 - 2},
+	{1 << 31, 1 << 32, 1<<63 - 1},
+	{10, 11, 10 + 1<<63},
+}
+
 func psID(i int) hash.Event {
 	var h hash.Event
 	h[0] = 0xC1
@@ -73,12 +86,19 @@ func psRun(c *psCase, run int, rnd *rand.Rand) (res []int, panicked string) {
 		}
 		return out
 	}
+	// the specification's metric values are ranks: only their order matters for "an option of maximal
+	// metric".  Each run embeds the ranks into uint64 through one of several strictly increasing maps.
+	emb := psEmbeddings[run%len(psEmbeddings)]
 	metricFn := func(h hash.Event) ancestor.Metric {
 		id, ok := back[h]
 		if !ok || id < 1 || id > len(c.Metric) {
 			return 0
 		}
-		return ancestor.Metric(c.Metric[id-1])
+		r := c.Metric[id-1]
+		if r < 0 || r >= len(emb) {
+			panic("metric rank outside the embeddings")
+		}
+		return ancestor.Metric(emb[r])
 	}
 	strategies := make([]ancestor.SearchStrategy, len(c.Kinds))
 	for i, k := range c.Kinds {
